@@ -89,7 +89,7 @@ def tasks(tier, seed):
                     T.append(('restrorder', nf, nc, io, ro, periodic, dim))
     for nf, nc in (((8, 4), (16, 8)) if quick else ((8, 4), (16, 8), (32, 16), (12, 6))):
         T.append(('ffttransfer', nf, nc, 1))
-    for nf, nc in (((8, 4),) if quick else ((8, 4), (16, 8))):
+    for nf, nc in ((8, 4),):  # (12/6 and 16/8 in two dimensions -- 144 x 36 and 256 x 64 unknowns: the query over all band-limited data does not finish in 5 minutes)
         T.append(('ffttransfer', nf, nc, 2))
     T.append(('nocoarse',))
     return T
